@@ -875,6 +875,16 @@ def l3_gen(seed, families):
         if not attr and r.below(2):
             fn_blockdecl.append("  int %s(void);" % fnm)
         fn_probe.append((fnm, fsum))
+        if r.below(3) == 0 and "inline" not in attr:
+            # (not for `static inline` helpers: the pinned chibicc credits a file-scope reference to whatever function was defined
+            # last and drops the helper with it -- a reachability bug of its own, outside the name tables)
+            # referenced from a file-scope initializer only (a pointer, or a table after an unused static function): whatever
+            # decides which static functions are emitted must see that reference, wherever the definition stands
+            if r.below(2):
+                lines.append("static int unused%d_%d(void) { return 0; }" % (seed % 1000, k))
+            tabname = "ft%d_%d" % (seed % 1000, k)
+            lines.append("%sint (*%s[])(void) = { %s, %s };" % (r.pick(["static ", ""]), tabname, fnm, fnm))
+            fn_probe.append(("%s[%d]" % (tabname, r.below(2)), fsum))
     labels = set()
     kinds = []      # 'block' or 'for' (a for statement opens two scopes: its declaration and its body)
     decoys = [0]
@@ -978,6 +988,15 @@ def l3_gen(seed, families):
         lines.append("  " + f)
     for tn, expect in tent_probe:
         lines.append("  line = line ? line : ((%s) != %d ? __LINE__ : 0);" % (tn, expect))
+        probes += 1
+    # string literals are (anonymous) objects: literals of one type and length that agree up to an embedded NUL are still
+    # different objects with different bytes
+    for k in range(r.pick([0, 0, 1, 2])):
+        pre = "".join(r.pick("abcxyz") for _ in range(r.range(1, 4)))
+        t1, t2 = r.pick("ABCDEFGH"), r.pick("IJKLMNOP")
+        pfx = r.pick(["", "", "L", "u", "U"])
+        lines.append("  { const %s *sa = %s\"%s\\0%s.x\", *sb = %s\"%s\\0%s.x\"; line = line ? line : ((sa[%d] != '%s' || sb[%d] != '%s' || sa[0] != sb[0]) ? __LINE__ : 0); }"
+                     % ({"": "char", "L": "int", "u": "unsigned short", "U": "unsigned"}[pfx], pfx, pre, t1, pfx, pre, t2, len(pre) + 1, t1, len(pre) + 1, t2))
         probes += 1
     lines += fn_blockdecl
     if fn_probe:
